@@ -31,6 +31,9 @@ func install() {
 		return
 	}
 	packets.VerifNewSourceSink = func(addr netip.Addr, useDriver bool) (packets.SourceSinkHandle, bool, error) {
+		if fw := currentFree.Load(); fw != nil {
+			return fw.newSourceSink(addr, useDriver)
+		}
 		w := current.Load()
 		if w == nil {
 			return packets.SourceSinkHandle{}, true, fmt.Errorf("verif: no simulated world")
@@ -38,6 +41,9 @@ func install() {
 		return w.hookNewSourceSink(addr, useDriver)
 	}
 	reversedns.LookupAddrFn = func(ctx context.Context, addr string) ([]string, error) {
+		if currentFree.Load() != nil {
+			return freeLookup(ctx, addr)
+		}
 		w := current.Load()
 		if w == nil {
 			return nil, fmt.Errorf("verif: no simulated world")
@@ -46,6 +52,9 @@ func install() {
 	}
 	tr := http.DefaultTransport.(*http.Transport)
 	tr.DialTLSContext = func(ctx context.Context, network, addr string) (net.Conn, error) {
+		if currentFree.Load() != nil {
+			return nil, errRefused
+		}
 		w := current.Load()
 		if w == nil {
 			return nil, fmt.Errorf("verif: no simulated world")
@@ -68,6 +77,13 @@ type Outcome struct {
 	SchedHash  uint64
 	Virtual    time.Duration
 	RealNs     int64
+	Races      []RaceReport // free-running mode: reports the race detector wrote during this run
+}
+
+// RaceReport is one report of the Go race detector.
+type RaceReport struct {
+	SiteA, SiteB string // first frame of the code under test in each of the two access stacks
+	Text         string
 }
 
 // setAllocators positions the process-wide identifier allocators as the scenario asks.
